@@ -55,6 +55,18 @@ def leeOp (args : List String) : Option String :=
     if n = 0 then failure
     pure (fList (fList fF) (tab2 n wn.length (leeSigma n (fn1 p) b t pi a q mix (fn1 wn))))) args
 
-def ops : List Op := [("c19.cloud", cloudOp), ("c19.flat", flatOp), ("c19.lee", leeOp)] ++ Taurex.Ops.C01.ops
+/-- `c19.declare defaultNames defaultValues configNames configValues` → option (values in the order of the defaults):
+    the keyword arguments a contribution declared in an input file is constructed with (`Haze.declaredArgs`) -/
+def declareOp (args : List String) : Option String :=
+  run (do
+    let dn ← listOf tok
+    let dv ← listOf flt
+    let cn ← listOf tok
+    let cv ← listOf flt
+    if dn.length ≠ dv.length ∨ cn.length ≠ cv.length then failure
+    pure (fOpt (fun kv => fList fF (kv.map Prod.snd)) (declaredArgs (dn.zip dv) (cn.zip cv)))) args
+
+def ops : List Op :=
+  [("c19.cloud", cloudOp), ("c19.flat", flatOp), ("c19.lee", leeOp), ("c19.declare", declareOp)] ++ Taurex.Ops.C01.ops
 
 end Taurex.Ops.C19
